@@ -25,6 +25,7 @@ TRANSLATORS = [
     ('translator.gen_writers', 'GenWriters.v'),
     ('translator.gen_readers', 'GenReaders.v'),
     ('translator.gen_effects', 'GenEffects.v'),
+    ('translator.gen_cli', 'GenCli.v'),
 ]
 
 FORBIDDEN = re.compile(r'\b(Admitted|admit|Axiom|Axioms|Parameter|Parameters|Conjecture|Conjectures|Abort All)\b'
